@@ -152,6 +152,12 @@ def cases(ctx):
             continue
         ss = subsets(r, in0 & in1)
         es = subsets(r, out0 & out1)
+        if isinstance(p1, dict):
+            common = [n for n, t in zip(p0["names"], p0["ty"]) if t not in ("input", "0", "1", "x") and n in p1["names"]
+                      and p1["ty"][p1["names"].index(n)] not in ("input", "0", "1", "x")]
+            if common:     # any net may be compared, not only declared outputs
+                es.append(sorted(set(r.sample(common, min(len(common), r.choice([1, 2]))) + r.sample(sorted(out0 & out1), 1))))
+                es.append([r.choice(common)])
         combos = [(None, None)] + [(r.choice(ss), r.choice(es)) for _ in range(2)]
         for S, E in combos:
             yield {"op": "miter", "c0": p0, "c1": p1, "S": S, "E": E, "src": src}
